@@ -28,7 +28,7 @@ func genC14(rt *rapid.T, c *Ctx) C14Case {
 	allow := wireGated(c, "C14")
 	k := C14Case{Prior: rapid.Bool().Draw(rt, "prior")}
 	if rapid.IntRange(0, 99).Draw(rt, "planted") < 35 {
-		k.Plant = rapid.SampledFrom([]string{"syntax", "type-error", "mixed-packages", "dup-set", "missing-ctor"}).Draw(rt, "plant")
+		k.Plant = rapid.SampledFrom([]string{"syntax", "type-error", "mixed-packages", "dup-set", "missing-ctor", "type-error-nonwire", "syntax-nonwire"}).Draw(rt, "plant")
 	}
 	if k.Plant != "missing-ctor" {
 		delete(allow, "bind-foreign-ctor")
@@ -79,6 +79,11 @@ func checkC14(c *Ctx, k C14Case) *Verdict {
 		appendFile(filepath.Join(p.B.AppDir, "wire.go"), "\nfunc broken( {\n")
 	case "type-error":
 		appendFile(filepath.Join(p.B.AppDir, "wire.go"), "\nvar _ int = \"not an int\"\n")
+	case "type-error-nonwire":
+		// the error sits in a file of the package that does not import wire at all
+		appendFile(filepath.Join(p.B.AppDir, "providers.go"), "\nvar _ int = \"not an int\"\n")
+	case "syntax-nonwire":
+		appendFile(filepath.Join(p.B.AppDir, "providers.go"), "\nfunc broken( {\n")
 	case "dup-set":
 		name := "DupSet"
 		for _, f := range w.Files {
